@@ -14,8 +14,8 @@ from scen import Scn
 import scenario_common as sc
 
 EXITS = [dict(code=0), dict(code=3), dict(signal=9)]
-RT_POINTS = ["init", "initerror", "event", "responded", "idle"]
-EXT_POINTS = ["preregister", "registered", "event", "initerror", "exiterror", "idle", "launchfail"]
+RT_POINTS = ["init", "initerror", "event", "responded", "idle", "overhead"]
+EXT_POINTS = ["preregister", "registered", "event", "initerror", "exiterror", "idle", "launchfail", "overhead"]
 
 
 def kill(s, who, ex):
@@ -29,10 +29,12 @@ def one(sid, rnd, nx, target, point, ex):
     opt = {}
     if target == "ext":
         victim = exts[0]
-        if point in ("event",):
+        if point in ("event", "overhead"):
             subs[victim] = ["INVOKE"] + (["SHUTDOWN"] if rnd.random() < 0.5 else [])
         if point == "launchfail":
             opt["launchFail"] = [victim]
+    if point == "overhead" and target == "rt" and exts:
+        subs[exts[0]] = ["INVOKE"]      # somebody must still be busy with the event when the runtime is back
     s = Scn(sid, ext=exts, timeout_ms=500, onTerm={e: "exit" for e in exts}, **opt)
     s.meta(family="fault", target=target, point=point, exit=ex, subs=subs)
     s.init()
@@ -99,6 +101,13 @@ def one(sid, rnd, nx, target, point, ex):
                 kill(s, "rt", ex)
             elif target == "ext" and point == "event":
                 kill(s, "ext:" + victim, ex)
+            elif point == "overhead":
+                # the runtime has answered and is back in its poll; an INVOKE subscriber is still busy with the event when
+                # the fault hits: the invocation fails (the answer already delivered stays), the environment is reset
+                s.call("rt", "response", id="current", body="delivered-before-crash")
+                tags["rt"] = s.poll("rt")
+                s.sleep(20)
+                kill(s, "rt" if target == "rt" else "ext:" + victim, ex)
             elif target == "ext" and point == "exiterror":
                 s.call("ext:" + victim, "exterror", which="exit", errType="Extension.Fatal")
                 kill(s, "ext:" + victim, ex)
@@ -126,6 +135,8 @@ def scenarios(ctx):
     n = 0
     for nx in (0, 1, 2):
         for point in RT_POINTS:
+            if point == "overhead" and nx == 0:
+                continue
             for ex in (EXITS if not ctx.quick else [rnd.choice(EXITS)]):
                 n += 1
                 out.append(one("c06-%03d" % n, rnd, nx, "rt", point, ex))
